@@ -78,8 +78,10 @@ pub fn missing_code(f: Fd) -> i64 {
 }
 
 pub fn fmt_date_ms(ms: i64) -> String {
-    let dt = time::OffsetDateTime::from_unix_timestamp_nanos(ms as i128 * 1_000_000).unwrap();
-    dt.format(&time::format_description::well_known::Rfc3339).unwrap()
+    match time::OffsetDateTime::from_unix_timestamp_nanos(ms as i128 * 1_000_000) {
+        Ok(dt) => dt.format(&time::format_description::well_known::Rfc3339).unwrap_or_else(|_| format!("unformattable date {ms} ms")),
+        Err(_) => format!("date {ms} ms out of range"),
+    }
 }
 pub fn parse_date_ms(s: &str) -> Option<i64> {
     let dt = time::OffsetDateTime::parse(s, &time::format_description::well_known::Rfc3339).ok()?;
